@@ -43,6 +43,10 @@ def groups_of(rec_, fail_blocks=None):
 
 
 def events(r, groups):
+    if r.get("hung") or r.get("panicked"):
+        # a call that panicked or never returned: no behaviour of the model has such a step
+        return [{"ev": "cnew", "case": r["case"], "groups": []},
+                {"ev": "ccall", "case": r["case"], "plen": 0, "n": 1, "err": "hang-or-panic", "st": "done", "ovLen": 0, "ovPos": 0}]
     ev = [{"ev": "cnew", "case": r["case"], "groups": groups}]
     for c in r["calls"]:
         if c.get("after"):
@@ -141,8 +145,8 @@ def run(ctx):
         for c in cases:
             r = recs[c["id"]]
             if r["hung"] or r["panicked"]:
-                f1.write(json.dumps({"ev": "cnew", "case": r["case"], "groups": []}) + "\n")
-                f1.write(json.dumps({"ev": "ccall", "case": r["case"], "plen": 0, "n": 1, "err": "hang-or-panic", "st": "done", "ovLen": 0, "ovPos": 0}) + "\n")
+                for e in events(r, []):
+                    f1.write(json.dumps(e, separators=(",", ":")) + "\n")
                 continue
             g = groups_of(pr[c["probe"]], c.get("failBlocks") if "failPos" in c else None)
             for e in events(r, g):
@@ -157,7 +161,9 @@ def run(ctx):
         rec = json.loads(rj["line"])
         c = by_id[rec["case"]]
         r = recs[c["id"]]
-        if which == "calls":
+        if r.get("hung") or r.get("panicked"):
+            key = "C18:%s:prelude=%s" % ("hang" if r.get("hung") else "panic", "preCode" in c)
+        elif which == "calls":
             key = "C18:calls:%s:plen%slen(ov):n=%s:err=%s:fail=%s" % (rec.get("st"), "<" if rec.get("plen", 0) < rec.get("ovLen", 0) else ">=",
                                                                    "0" if rec.get("n") == 0 else ("plen" if rec.get("n") == rec.get("plen") else "partial"),
                                                                    rec.get("err"), "failPos" in c)
@@ -173,15 +179,16 @@ def run(ctx):
         sub = vlib.Ctx(ctx.prop, ctx.tier, ctx.seed)
         x1, j1 = vlib.validate_trace(sub, "CompressingReader_Trace", a1, shards=1)
         j2 = []
-        if "failPos" not in c:
+        if "failPos" not in c and not (r2.get("hung") or r2.get("panicked")):
             vlib.write_ndjson(a2, [emit_event(r2)])
             x2, j2 = vlib.validate_trace(sub, "LZ4Frame_Trace", a2, cfg="LZ4Frame_Trace_C18", shards=1)
         if not j1 and not j2:
             ctx.unreproducible("%s: %s" % (key, rj["line"][:300]))
             continue
         obs = {k: v for k, v in r2.items() if k not in ("bytes", "input")}
-        obs["calls"] = obs["calls"][:40]
-        obs["ref"]["blocks"] = obs["ref"]["blocks"][:6]
+        obs["calls"] = (obs.get("calls") or [])[:40]
+        if obs.get("ref"):
+            obs["ref"]["blocks"] = obs["ref"]["blocks"][:6]
         ctx.violation(key, "compressing reader run rejected: %s" % key,
                       {"kind": "c18", "case": {k: v for k, v in c.items()}, "groups": g, "observed": obs,
                        "rejected_event": json.loads((j1 or j2)[0]["line"])})
